@@ -68,6 +68,30 @@ def step (e : Address.Env) (s : St) : Op → St
       | some t => s.set k t
       | none => { s with panicked := true }
 
+/-- the addresses of a mailbox-list header (`Envelope::try_from(&Headers)`: absent or unparseable ⇒ none) -/
+def St.addrs (e : Address.Env) (s : St) (k : Kind) : List (List Char) :=
+  match s.get e k with
+  | some l => l.map (·.email)
+  | none => []
+
+/-- the reverse path: the Sender, else the single From; `none` = several From mailboxes and no Sender -/
+def St.reversePath (e : Address.Env) (s : St) : Option (Option (List Char)) :=
+  match s.get e .sender with
+  | some [m] => some (some m.email)
+  | _ => match s.get e .from_ with
+    | some f => (if f.length > 1 then none else match f.getLast? with
+        | some m => some (some m.email)
+        | none => some none)    -- unreachable in the code: `expect` panics on an empty list
+    | none => some none
+
+/-- the envelope computed from the headers -/
+def St.headerEnvelope (e : Address.Env) (s : St) : Except Err Env' :=
+  match s.reversePath e with
+  | none => .error .tooManyFrom
+  | some rp =>
+    let to := s.addrs e .to ++ s.addrs e .cc ++ s.addrs e .bcc
+    if to.isEmpty then .error .missingTo else .ok ⟨rp, to⟩
+
 def build (e : Address.Env) (s : St) : Outcome :=
   if s.panicked then .panic else
   match s.get e .from_ with
@@ -77,21 +101,7 @@ def build (e : Address.Env) (s : St) : Outcome :=
     let env : Except Err Env' :=
       match s.envelope with
       | some ev => .ok ev
-      | none =>
-        let rp : Option (Option (List Char)) :=
-          match s.get e .sender with
-          | some [m] => some (some m.email)
-          | _ => match s.get e .from_ with
-            | some f => (if f.length > 1 then none else match f.getLast? with
-                | some m => some (some m.email)
-                | none => some none)    -- unreachable in the code: `expect` panics on an empty list
-            | none => some none
-        match rp with
-        | none => .error .tooManyFrom
-        | some rp =>
-          let addrs := fun k => match s.get e k with | some l => l.map (·.email) | none => []
-          let to := addrs .to ++ addrs .cc ++ addrs .bcc
-          if to.isEmpty then .error .missingTo else .ok ⟨rp, to⟩
+      | none => s.headerEnvelope e
     match env with
     | .error er => .err er
     | .ok ev => .ok ev (!s.dropBcc && (s.texts .bcc).isSome)
